@@ -533,7 +533,7 @@ func main() {
 	collect(parse(filepath.Join(dir, "RegisterSet.go")))
 	collect(parse(filepath.Join(dir, "HyperLogLog.go")))
 
-	fmt.Fprintf(&out, "-- generated by xlate/c14 from %s/util/hll — do not edit\nimport Golib.HLL.Src\n\nnamespace Gen.C14\nopen HLL.Src\n\n", "<repo>")
+	fmt.Fprintf(&out, "-- generated by xlate/c14 from %s/util/hll — do not edit\nimport Golib.HLL.SrcProg\n\nnamespace Gen.C14\nopen HLL.Src\n\n", "<repo>")
 
 	// constants
 	for _, c := range []string{"LOG2_BITS_PER_WORD", "REGISTER_SIZE"} {
@@ -827,6 +827,9 @@ func main() {
 		def(fn.lean, "List String", skeleton(funcs[fn.name]))
 	}
 
+	def("getBytesProg", "List WStep", writerProg(funcs["HyperLogLog.GetBytes"]))
+	def("buildProg", "List RStep", readerProg(funcs["BuildHyperLogLog"]))
+
 	gq := make([]string, len(guards))
 	for i, g := range guards {
 		gq[i] = q(g)
@@ -985,4 +988,269 @@ func renameIdents(src string, ren map[string]string) string {
 		i++
 	}
 	return b.String()
+}
+
+// ---------------------------------------------------------------- byte-form programs (interpreted in Lean)
+
+// localNames: receiver → recv, parameters → p0…, locals → v0… (order of definition), as in skeleton
+func localNames(fd *ast.FuncDecl) map[string]string {
+	ren := map[string]string{}
+	i := 0
+	for _, fl := range fd.Type.Params.List {
+		for _, n := range fl.Names {
+			ren[n.Name] = fmt.Sprintf("p%d", i)
+			i++
+		}
+	}
+	nloc := 0
+	add := func(e ast.Expr) {
+		if id, ok := e.(*ast.Ident); ok && id.Name != "_" {
+			if _, seen := ren[id.Name]; !seen {
+				ren[id.Name] = fmt.Sprintf("v%d", nloc)
+				nloc++
+			}
+		}
+	}
+	ast.Inspect(fd.Body, func(n ast.Node) bool {
+		switch n := n.(type) {
+		case *ast.AssignStmt:
+			if n.Tok == token.DEFINE {
+				for _, l := range n.Lhs {
+					add(l)
+				}
+			}
+		case *ast.RangeStmt:
+			if n.Tok == token.DEFINE {
+				if n.Key != nil {
+					add(n.Key)
+				}
+				if n.Value != nil {
+					add(n.Value)
+				}
+			}
+		}
+		return true
+	})
+	return ren
+}
+
+// method call x.M(args) on a local x: returns (canonical x, M, args)
+func localCall(e ast.Expr, ren map[string]string) (string, string, []ast.Expr, bool) {
+	c, ok := e.(*ast.CallExpr)
+	if !ok {
+		return "", "", nil, false
+	}
+	sel, ok := c.Fun.(*ast.SelectorExpr)
+	if !ok {
+		return "", "", nil, false
+	}
+	id, ok := sel.X.(*ast.Ident)
+	if !ok {
+		return "", "", nil, false
+	}
+	r, ok := ren[id.Name]
+	if !ok || !strings.HasPrefix(r, "v") {
+		return "", "", nil, false
+	}
+	return r, sel.Sel.Name, c.Args, true
+}
+
+func isConv(e ast.Expr, ty string) (ast.Expr, bool) {
+	c, ok := e.(*ast.CallExpr)
+	if !ok || len(c.Args) != 1 {
+		return nil, false
+	}
+	id, ok := c.Fun.(*ast.Ident)
+	if !ok || id.Name != ty {
+		return nil, false
+	}
+	return c.Args[0], true
+}
+
+func writerProg(fd *ast.FuncDecl) string {
+	if fd == nil {
+		return "[.unknown " + q("GetBytes not found") + "]"
+	}
+	ren := localNames(fd)
+	s := newScope(fd)
+	for name, r := range ren {
+		if strings.HasPrefix(r, "v") {
+			s.loc[name] = 32
+			s.locName[name] = r
+		}
+	}
+	var steps []string
+	unk := func(st ast.Stmt) { steps = append(steps, ".unknown "+q(typeText2(st))) }
+	for _, st := range fd.Body.List {
+		switch st := st.(type) {
+		case *ast.AssignStmt:
+			// v := io.NewDataOutputX()
+			if st.Tok == token.DEFINE && len(st.Lhs) == 1 && len(st.Rhs) == 1 {
+				if c, ok := st.Rhs[0].(*ast.CallExpr); ok && len(c.Args) == 0 && typeText(c.Fun) == "io.NewDataOutputX" {
+					steps = append(steps, ".newOut "+q(ren[st.Lhs[0].(*ast.Ident).Name]))
+					continue
+				}
+			}
+			unk(st)
+		case *ast.ExprStmt:
+			if out, m, args, ok := localCall(st.X, ren); ok && m == "WriteInt" && len(args) == 1 {
+				if _, ok := isConv(args[0], "int32"); ok {
+					steps = append(steps, ".writeInt "+q(out)+" "+s.tr(args[0], 0).ex)
+					continue
+				}
+			}
+			unk(st)
+		case *ast.RangeStmt:
+			// for _, x := range recv.path() { out.WriteInt(int32(e)) }
+			okShape := false
+			if st.Tok == token.DEFINE && st.Value != nil && len(st.Body.List) == 1 {
+				if key, ok := st.Key.(*ast.Ident); ok && key.Name == "_" {
+					if cc, ok := st.X.(*ast.CallExpr); ok && len(cc.Args) == 0 {
+						if path, _, ok := s.recvPath(cc.Fun); ok {
+							if es, ok := st.Body.List[0].(*ast.ExprStmt); ok {
+								if out, m, args, ok := localCall(es.X, ren); ok && m == "WriteInt" && len(args) == 1 {
+									if _, ok := isConv(args[0], "int32"); ok {
+										x := ren[st.Value.(*ast.Ident).Name]
+										steps = append(steps, ".forWriteInt "+q(out)+" "+q(path)+" "+q(x)+" "+s.tr(args[0], 0).ex)
+										okShape = true
+									}
+								}
+							}
+						}
+					}
+				}
+			}
+			if !okShape {
+				unk(st)
+			}
+		case *ast.ReturnStmt:
+			if len(st.Results) == 1 {
+				if out, m, args, ok := localCall(st.Results[0], ren); ok && m == "ToByteArray" && len(args) == 0 {
+					steps = append(steps, ".retBytes "+q(out))
+					continue
+				}
+			}
+			unk(st)
+		default:
+			unk(st)
+		}
+	}
+	return "[" + strings.Join(steps, ",\n   ") + "]"
+}
+
+func typeText2(n ast.Node) string {
+	var b bytes.Buffer
+	printer.Fprint(&b, fset, n)
+	return strings.Join(strings.Fields(b.String()), " ")
+}
+
+func readerProg(fd *ast.FuncDecl) string {
+	if fd == nil {
+		return "[.unknown " + q("BuildHyperLogLog not found") + "]"
+	}
+	ren := localNames(fd)
+	s := newScope(fd)
+	var steps []string
+	unk := func(st ast.Stmt) { steps = append(steps, ".unknown "+q(typeText2(st))) }
+	local := func(e ast.Expr) (string, bool) {
+		if id, ok := e.(*ast.Ident); ok {
+			if r, ok := ren[id.Name]; ok && strings.HasPrefix(r, "v") {
+				return r, true
+			}
+		}
+		return "", false
+	}
+	// x.ReadInt() on a local input
+	readInt := func(e ast.Expr) (string, bool) {
+		in, m, args, ok := localCall(e, ren)
+		return in, ok && m == "ReadInt" && len(args) == 0
+	}
+	for _, st := range fd.Body.List {
+		if isCountGuard(st) {
+			continue // listed in countGuards, with its own obligation
+		}
+		switch st := st.(type) {
+		case *ast.AssignStmt:
+			if st.Tok == token.DEFINE && len(st.Lhs) == 1 && len(st.Rhs) == 1 {
+				v := ren[st.Lhs[0].(*ast.Ident).Name]
+				rhs := st.Rhs[0]
+				if c, ok := rhs.(*ast.CallExpr); ok && len(c.Args) == 1 && typeText(c.Fun) == "io.NewDataInputX" {
+					steps = append(steps, ".newIn "+q(v)+" "+s.tr(c.Args[0], 0).ex)
+					continue
+				}
+				if inner, ok := isConv(rhs, "uint32"); ok {
+					if in, ok := readInt(inner); ok {
+						steps = append(steps, ".readU32 "+q(v)+" "+q(in))
+						continue
+					}
+				}
+				if in, ok := readInt(rhs); ok {
+					steps = append(steps, ".readI32 "+q(v)+" "+q(in))
+					continue
+				}
+				if c, ok := rhs.(*ast.CallExpr); ok && len(c.Args) == 2 && typeText(c.Fun) == "make" && typeText(c.Args[0]) == "[]uint32" {
+					if cnt, ok := local(c.Args[1]); ok {
+						steps = append(steps, ".makeU32 "+q(v)+" "+q(cnt))
+						continue
+					}
+				}
+			}
+			unk(st)
+		case *ast.ForStmt:
+			// for i := 0; i < int(cnt); i++ { arr[i] = uint32(in.ReadInt()) }
+			okShape := false
+			init, ok1 := st.Init.(*ast.AssignStmt)
+			cond, ok2 := st.Cond.(*ast.BinaryExpr)
+			post, ok3 := st.Post.(*ast.IncDecStmt)
+			if ok1 && ok2 && ok3 && init.Tok == token.DEFINE && len(init.Lhs) == 1 && typeText(init.Rhs[0]) == "0" &&
+				cond.Op == token.LSS && post.Tok == token.INC && len(st.Body.List) == 1 {
+				iv := typeText(init.Lhs[0])
+				if typeText(cond.X) == iv && typeText(post.X) == iv {
+					if cntE, ok := isConv(cond.Y, "int"); ok {
+						if cnt, ok := local(cntE); ok {
+							if as, ok := st.Body.List[0].(*ast.AssignStmt); ok && as.Tok == token.ASSIGN && len(as.Lhs) == 1 {
+								if ix, ok := as.Lhs[0].(*ast.IndexExpr); ok && typeText(ix.Index) == iv {
+									if arr, ok := local(ix.X); ok {
+										if inner, ok := isConv(as.Rhs[0], "uint32"); ok {
+											if in, ok := readInt(inner); ok {
+												steps = append(steps, ".fillU32 "+q(arr)+" "+q(cnt)+" "+q(in))
+												okShape = true
+											}
+										}
+									}
+								}
+							}
+						}
+					}
+				}
+			}
+			if !okShape {
+				unk(st)
+			}
+		case *ast.ReturnStmt:
+			// return NewHyperLogLog(l, NewRegisterSetInit(int(1<<l), arr))
+			okShape := false
+			if len(st.Results) == 1 {
+				if c, ok := st.Results[0].(*ast.CallExpr); ok && len(c.Args) == 2 && typeText(c.Fun) == "NewHyperLogLog" {
+					if l, ok := local(c.Args[0]); ok {
+						if c2, ok := c.Args[1].(*ast.CallExpr); ok && len(c2.Args) == 2 && typeText(c2.Fun) == "NewRegisterSetInit" {
+							if arr, ok := local(c2.Args[1]); ok {
+								want := "int(1 << " + typeText(c.Args[0]) + ")"
+								if typeText2(c2.Args[0]) == want || typeText(c2.Args[0]) == "int(1<<"+typeText(c.Args[0])+")" {
+									steps = append(steps, ".retNew "+q(l)+" "+q(arr))
+									okShape = true
+								}
+							}
+						}
+					}
+				}
+			}
+			if !okShape {
+				unk(st)
+			}
+		default:
+			unk(st)
+		}
+	}
+	return "[" + strings.Join(steps, ",\n   ") + "]"
 }
